@@ -71,6 +71,7 @@ NO_WIDE = {
     'ScanPartitioner', 'ClusteringPartitioner', 'GTQCPartitioner',
     'TDAGPartitioner',
 }
+SURROUND_BASED = {'GreedyPartitioner', 'ClusteringPartitioner'}
 # documented exception type for a gate wider than the block
 REJECT_TYPE = {
     'ScanPartitioner': RuntimeError, 'GTQCPartitioner': RuntimeError,
@@ -303,8 +304,16 @@ def _drive(p, circuit, data) -> None:
 
 
 def _pass_data(case, circuit):
+    """PassData for the run.  ``PassData(circuit)`` eagerly computes the
+    unitary of circuits of <= 8 qudits (6561 x 6561 for 8 qutrits); none of
+    the passes under test reads the target, so the data is built from a
+    same-shaped circuit holding one Reset, which keeps the target lazy."""
     from bqskit.compiler.passdata import PassData
-    data = PassData(circuit)
+    from bqskit.ir.circuit import Circuit
+    from bqskit.ir.gates import Reset
+    proxy = Circuit(circuit.num_qudits, circuit.radixes)
+    proxy.append_gate(Reset(circuit.radixes[0]), [0])
+    data = PassData(proxy)
     m = case.get('model')
     if m:
         from bqskit.compiler.machine import MachineModel
@@ -778,6 +787,9 @@ def cases(draw, ctx=None, name=None, mode='drawn'):
     else:
         radix = draw(st.sampled_from([2, 2, 2, 3]))
         n = draw(st.integers(4, 20) if mode == 'big' else st.integers(2, 20))
+        if radix == 3 and n in (7, 8):
+            # PassData() allocates a dim x dim identity for <= 8 qudits
+            n = 6 if n == 7 else 9
     bs = draw(st.sampled_from([2, 3, 3, 3, 4, 4, 5, 6]))
     if bs > n and avoid.get('bs>n'):
         bs = n
@@ -822,14 +834,20 @@ def cases(draw, ctx=None, name=None, mode='drawn'):
         )
         prof['pw'] = min(lim['pw'], draw(st.sampled_from([1, 2, 4, 20])))
         nops = draw(st.integers(20, 300))
+        if name in SURROUND_BASED:
+            # Circuit.surround is an exhaustive search, exponential in bs
+            nops = min(nops, {2: 300, 3: 300, 4: 80}.get(bs, 25))
         seed = draw(st.integers(0, 2**31 - 1))
         case.update(
             n=n, radix=radix, ops=_expand(n, radix, nops, seed, prof),
         )
     else:
         lim['pw'] = min(lim['pw'], 4)
+        cap = 40
+        if name in SURROUND_BASED and bs >= 5:
+            cap = 20
         case.update(
-            n=n, radix=radix, ops=draw(_drawn_ops(n, radix, lim, 40)),
+            n=n, radix=radix, ops=draw(_drawn_ops(n, radix, lim, cap)),
         )
 
     case['bs'] = bs
